@@ -16,6 +16,7 @@ import (
 	"path/filepath"
 	"sort"
 	"strings"
+	"time"
 
 	anystore "github.com/anyproto/any-store"
 	"github.com/anyproto/any-store/anyenc"
@@ -24,6 +25,7 @@ import (
 	"github.com/anyproto/any-sync/commonspace/headsync/headstorage"
 	"github.com/anyproto/any-sync/commonspace/object/accountdata"
 	"github.com/anyproto/any-sync/commonspace/object/acl/list"
+	"github.com/anyproto/any-sync/commonspace/object/keyvalue"
 	"github.com/anyproto/any-sync/commonspace/object/keyvalue/keyvaluestorage"
 	"github.com/anyproto/any-sync/commonspace/object/keyvalue/keyvaluestorage/innerstorage"
 	"github.com/anyproto/any-sync/commonspace/spacesyncproto"
@@ -531,11 +533,12 @@ func (o obsT) term() string {
 // ------------------------------------------------------------------------------------------------ operations
 
 type opSpec struct {
-	Kind    string    `json:"kind"` // raw | local | sync
+	Kind    string    `json:"kind"` // raw | local | sync (re-enacted on the two local diffs) | rsync (the real service over DRPC)
 	Who     int       `json:"who"`  // 0 = store A, 1 = store B
 	Fault   string    `json:"fault,omitempty"`
 	FaultK  int       `json:"fault_k,omitempty"`
 	Batch   []valSpec `json:"batch,omitempty"`
+	Fill    *fillSpec `json:"fill,omitempty"` // raw: the batch is expandFill(*Fill) (large stores)
 	Key     int       `json:"key,omitempty"`
 	Payload int       `json:"payload,omitempty"`
 }
@@ -594,6 +597,8 @@ type runner struct {
 	d       *dbs
 	out     *vlib.Writer
 	samples []interface{}
+	net     *netH
+	finish  func(rule string, extra map[string]interface{})
 }
 
 func (r *runner) runCase(cd caseDesc) {
@@ -602,9 +607,19 @@ func (r *runner) runCase(cd caseDesc) {
 	defer stores[0].drop()
 	defer stores[1].drop()
 	var steps []string
+	var svcs [2]*keyvalue.VerifService
 	delivered, nvalid, nmut, nfault, nsync, nlocal := 0, 0, 0, 0, 0, 0
+	maxBatch := 0
+	timing := os.Getenv("C12_TIMING") != ""
 	for _, op := range cd.Ops {
+		t0 := time.Now()
 		s := stores[op.Who]
+		if op.Kind == "raw" && op.Fill != nil {
+			op.Batch = expandFill(*op.Fill)
+		}
+		if len(op.Batch) > maxBatch {
+			maxBatch = len(op.Batch)
+		}
 		*s.ctl = faultCtl{mode: op.Fault, k: op.FaultK}
 		var opTerm string
 		ok := true
@@ -634,7 +649,11 @@ func (r *runner) runCase(cd caseDesc) {
 			err := s.st.SetRaw(ctx, protos...)
 			ok = err == nil
 			opTerm = vlib.App("OpRaw", whoTerm(op.Who), faultTerm(op.Fault, op.FaultK), vlib.List(vals))
-			r.out.Stat(fmt.Sprintf("batch_len_%d", len(op.Batch)))
+			if len(op.Batch) < 10 {
+				r.out.Stat(fmt.Sprintf("batch_len_%d", len(op.Batch)))
+			} else {
+				r.out.Stat(fmt.Sprintf("batch_len_%d00s", len(op.Batch)/100))
+			}
 		case "local":
 			s.bc.last = nil
 			err := s.st.Set(ctx, keyName(op.Key), []byte(fmt.Sprintf("local-%d", op.Payload)))
@@ -664,6 +683,27 @@ func (r *runner) runCase(cd caseDesc) {
 			}
 			opTerm = vlib.App("OpSync", whoTerm(op.Who))
 			nsync++
+		case "rsync":
+			if svcs[0] == nil {
+				for i := range svcs {
+					svcs[i] = keyvalue.VerifNewService(ctx, verifSpaceId, stores[i].id, stores[i].st)
+				}
+			}
+			err, hang := r.net.realSync(svcs, op.Who)
+			if hang {
+				// the model cannot express a hang: report directly and stop (a store mutex may be held for ever)
+				idx := r.out.Add("CRun []", cd, fmt.Sprintf("hang-%d", r.out.Count()), true)
+				r.out.Violation(idx, "sync-hang", fmt.Sprintf("real sync exchange (side %d initiating) did not return within %s", op.Who, syncTimeout), cd)
+				r.finish("stopped after a hanging sync exchange", nil)
+				os.Exit(0)
+			}
+			if err != nil {
+				ok = false
+				r.out.Stat("rsync_error")
+			}
+			opTerm = vlib.App("OpSyncStream", whoTerm(op.Who), vlib.Nat(keyvalue.VerifApplyBatchSize))
+			nsync++
+			r.out.Stat("rsync")
 		default:
 			panic("bad op kind " + op.Kind)
 		}
@@ -676,7 +716,11 @@ func (r *runner) runCase(cd caseDesc) {
 			}
 		}
 		*s.ctl = faultCtl{}
+		t1 := time.Now()
 		oa, ob := stores[0].observe(t, ok), stores[1].observe(t, ok)
+		if timing {
+			fmt.Fprintf(os.Stderr, "timing %s n=%d op=%v observe=%v\n", op.Kind, len(op.Batch), t1.Sub(t0), time.Since(t1))
+		}
 		steps = append(steps, "("+opTerm+", "+oa.term()+", "+ob.term()+")")
 		if !ok {
 			r.out.Stat("op_error")
@@ -799,7 +843,7 @@ func main() {
 	w := buildWorld()
 	d := openDBs(work)
 	out := vlib.NewWriter(o.Out, "C12_run", 400)
-	r := &runner{w: w, d: d, out: out}
+	r := &runner{w: w, d: d, out: out, net: newNet()}
 	finish := func(rule string, extra map[string]interface{}) {
 		out.Finish(rule, r.samples, extra)
 		for _, db := range d.db {
@@ -807,6 +851,7 @@ func main() {
 		}
 		os.RemoveAll(work)
 	}
+	r.finish = finish
 
 	if o.Replay != "" {
 		for _, raw := range vlib.ReadReplay(o.Replay) {
@@ -831,6 +876,79 @@ func main() {
 	if thorough {
 		scale *= 5
 	}
+
+	// (7) LARGE stores, one REAL sync exchange (emitted in groups between the other families so that the big case
+	// terms spread over the Coq shards): both sides are filled with one big raw batch each (a common base plus
+	// scattered differences: own-only slots and newer values on either side), then one side runs the real
+	// syncWithPeer against the other; a second exchange in the opposite direction must then be a no-op.
+	// Shapes: 0 = small initiator / large responder with nothing in common, 1 = large common base with FEW scattered
+	// differences, 2 = medium, 3 = large with many differences, 4 = responder below the ldiff compare threshold
+	// (single-range control), 5 = random.
+	bigRng := rng.Fork(7)
+	nBig := 0
+	bigCase := func() {
+		shape := nBig % 6
+		nBig++
+		f := fillSpec{Seed: bigRng.U64() >> 1}
+		who := bigRng.Intn(2)
+		rnd := func(lo, hi int) int { return lo + bigRng.Intn(hi-lo+1) }
+		// quick tier: just above the compare threshold of ldiff.New(32, 256) (the Coq evaluation of spec_C12 is quadratic
+		// in the store size); thorough tier: up to ~1000 slots
+		big := func(lo, hi, hiThorough int) int {
+			if thorough {
+				return rnd(lo, hiThorough)
+			}
+			return rnd(lo, hi)
+		}
+		switch shape {
+		case 0:
+			f.NOwn[who] = rnd(1, 3)
+			f.NOwn[1-who] = big(260, 330, 600)
+		case 1:
+			f.NCommon = big(260, 340, 800)
+			f.NOwn = [2]int{rnd(0, 4), rnd(0, 4)}
+			f.NNewer = [2]int{rnd(1, 4), rnd(1, 4)}
+		case 2:
+			f.NCommon = big(258, 320, 500)
+			f.NOwn = [2]int{rnd(10, 40), rnd(10, 40)}
+			f.NNewer = [2]int{rnd(5, 30), rnd(5, 30)}
+		case 3:
+			f.NCommon = big(300, 380, 700)
+			f.NOwn = [2]int{big(30, 70, 150), big(30, 70, 150)}
+			f.NNewer = [2]int{rnd(10, 40), rnd(10, 40)}
+		case 4:
+			f.NCommon = rnd(100, 200)
+			f.NOwn[who] = big(60, 150, 400)
+			f.NOwn[1-who] = rnd(0, 40)
+			f.NNewer = [2]int{rnd(0, 10), rnd(0, 10)}
+		default:
+			f.NCommon = big(0, 300, 600)
+			f.NOwn = [2]int{big(0, 150, 300), big(0, 150, 300)}
+			f.NNewer = [2]int{rnd(0, f.NCommon/3), rnd(0, f.NCommon/3)}
+		}
+		fa, fb := f, f
+		fa.Side, fb.Side = 0, 1
+		ops := []opSpec{{Kind: "raw", Who: 0, Fill: &fa}, {Kind: "raw", Who: 1, Fill: &fb}}
+		if bigRng.Bool() {
+			ops[0], ops[1] = ops[1], ops[0]
+		}
+		ops = append(ops, opSpec{Kind: "rsync", Who: who})
+		if bigRng.Chance(1, 3) {
+			ops = append(ops, opSpec{Kind: "rsync", Who: 1 - who})
+		}
+		r.out.Stat(fmt.Sprintf("big_shape_%d", shape))
+		r.runCase(caseDesc{Gen: "big_sync", BAcct: 1, Ops: ops})
+	}
+	bigPerGroup := 2 * o.Budget
+	if thorough {
+		bigPerGroup = 8 * o.Budget
+	}
+	bigGroup := func() {
+		for i := 0; i < bigPerGroup; i++ {
+			bigCase()
+		}
+	}
+	bigGroup()
 
 	// (1) exhaustive arrival orders x batchings of small multisets -------------------------------------------
 	maxN := 3
@@ -927,6 +1045,8 @@ func main() {
 		}
 	}
 
+	bigGroup()
+
 	// (4) faults around a write -----------------------------------------------------------------------------------
 	for rep := 0; rep < 12*scale; rep++ {
 		n := 1 + rng.Intn(4)
@@ -989,7 +1109,7 @@ func main() {
 		for i := 0; i < nOps; i++ {
 			switch rng.Intn(6) {
 			case 0:
-				ops = append(ops, opSpec{Kind: "sync", Who: rng.Intn(2)})
+				ops = append(ops, opSpec{Kind: []string{"sync", "rsync"}[rng.Intn(2)], Who: rng.Intn(2)})
 			case 1:
 				ops = append(ops, opSpec{Kind: "local", Who: rng.Intn(2), Key: rng.Intn(3), Payload: i})
 			default:
@@ -1005,9 +1125,11 @@ func main() {
 				ops = append(ops, op)
 			}
 		}
-		ops = append(ops, opSpec{Kind: "sync", Who: rng.Intn(2)})
+		ops = append(ops, opSpec{Kind: []string{"sync", "rsync"}[rng.Intn(2)], Who: rng.Intn(2)})
 		r.runCase(caseDesc{Gen: "two_stores", BAcct: bAcct, Ops: ops})
 	}
+
+	bigGroup()
 
 	// (6) random longer single-store histories --------------------------------------------------------------------
 	for rep := 0; rep < 40*scale; rep++ {
@@ -1044,7 +1166,9 @@ func main() {
 	finish("histories on two real stores (any-store + real ACL of 4 accounts + an outsider, 2 devices each): "+
 		"exhaustive arrival orders x batchings of multisets of 2..maxN values (+ repetitions), every listed mutation of a valid value "+
 		"(relabelling, signatures, bytes) alone / with its original, the (account x cited record) matrix, faults (k-th UpsertOne, "+
-		"UpdateEntry, Commit) around raw and local writes, two-store histories with sync exchanges, random longer histories; "+
+		"UpdateEntry, Commit) around raw and local writes, two-store histories with sync exchanges (re-enacted on the two local diffs, or the REAL "+
+		"keyValueService.syncWithPeer / HandleStoreDiffRequest / HandleStoreElementsRequest over an in-process DRPC pair), random longer histories, "+
+		"pairs of LARGE stores (260..1000 slots: common base + scattered own-only / newer slots on both sides) joined by one real exchange; "+
 		"a case is non-trivial if it delivers >= 2 values or contains a mutation, a fault or a sync; distinct by operation spec",
 		map[string]interface{}{"exhaustive_order_cases": exhaustive, "max_multiset": maxN,
 			"not_reproducible_bits": "account/device keys and ACL record ids are freshly random per process (the ACL test executor draws them); cases are replayed from their operation specs"})
